@@ -96,6 +96,71 @@ fn proj(q: &MQ) -> MQ {
     MQ::new(q.s.clone(), q.p.clone(), q.o.clone(), None)
 }
 
+/// model side of the term enumerations of a graph view over `quads` (projected triples)
+fn model_enums(quads: &[MQ]) -> Vec<(&'static str, std::collections::BTreeSet<MT>)> {
+    use std::collections::BTreeSet;
+    let (mut su, mut pr, mut ob, mut ir, mut bn, mut li, mut va, mut qt) =
+        (BTreeSet::new(), BTreeSet::new(), BTreeSet::new(), BTreeSet::new(), BTreeSet::new(), BTreeSet::new(), BTreeSet::new(), BTreeSet::new());
+    for q in quads {
+        su.insert(q.s.clone());
+        pr.insert(q.p.clone());
+        ob.insert(q.o.clone());
+        for t in [&q.s, &q.p, &q.o] {
+            let mut atoms = vec![];
+            t.atoms(&mut atoms);
+            for a in atoms {
+                match a {
+                    MT::Iri(_) => ir.insert(a.clone()),
+                    MT::Bnode(_) => bn.insert(a.clone()),
+                    MT::Lit(..) | MT::Lang(..) => li.insert(a.clone()),
+                    MT::Var(_) => va.insert(a.clone()),
+                    MT::Triple(_) => false,
+                };
+            }
+            let mut cs = vec![];
+            t.constituents(&mut cs);
+            for c in cs {
+                if c.is_triple() {
+                    qt.insert(c.clone());
+                }
+            }
+        }
+    }
+    vec![("subjects", su), ("predicates", pr), ("objects", ob), ("iris", ir), ("blank_nodes", bn), ("literals", li), ("variables", va), ("quoted_triples", qt)]
+}
+
+/// term enumerations of a graph view, compared as sets (duplicates are explicitly allowed)
+fn check_enums<G: Graph>(ctx: &mut Ctx, what: &str, store: &str, g: &G, selected: &[MQ], step: usize) {
+    let got: Vec<(&'static str, Vec<MT>)> = vec![
+        ("subjects", g_subjects(g)),
+        ("predicates", g_predicates(g)),
+        ("objects", g_objects(g)),
+        ("iris", g_iris(g)),
+        ("blank_nodes", g_blank_nodes(g)),
+        ("literals", g_literals(g)),
+        ("variables", g_variables(g)),
+    ];
+    for ((name, exp), (_, got)) in model_enums(selected).into_iter().zip(got) {
+        let gs = as_set(&got);
+        if gs != exp {
+            ctx.fail(
+                format!("view/{what}.{name}"),
+                format!("step {step} store {store}: {what}.{name}() = {:?}, expected {:?}", gs.iter().map(MT::show).collect::<Vec<_>>(), exp.iter().map(MT::show).collect::<Vec<_>>()),
+            );
+        }
+    }
+    // contains() through the view
+    for q in selected.iter().take(2) {
+        if !g_contains(g, q) {
+            ctx.fail(format!("view/{what}.contains"), format!("step {step} store {store}: {what}.contains({}) = false", q.show()));
+        }
+    }
+    let absent = MQ::new(MT::iri("http://x/absent-s"), MT::iri("http://x/a"), MT::iri("http://x/a"), None);
+    if g_contains(g, &absent) {
+        ctx.fail(format!("view/{what}.contains"), format!("step {step} store {store}: {what}.contains(absent triple) = true"));
+    }
+}
+
 fn cmp(ctx: &mut Ctx, what: &str, store: &str, got: Vec<MQ>, exp: Vec<MQ>, step: usize) {
     let (g, e) = (ms(got), ms(exp));
     let same = g.len() == e.len() && g.iter().zip(e.iter()).all(|(a, b)| a == b);
@@ -257,6 +322,7 @@ macro_rules! make_run_ds {
                 cmp(ctx, "union_graph.triples_matching", name, got, exp, step);
                 let all = g_all(&u);
                 cmp(ctx, "union_graph.triples", name, all, model.iter().map(proj).collect(), step);
+                check_enums(ctx, "union_graph", name, &u, &model.iter().map(proj).collect::<Vec<_>>(), step);
             }
             DOp::ReadIntoUnion(pat) => {
                 if view_mut {
@@ -304,6 +370,7 @@ macro_rules! make_run_ds {
                 let exp: Vec<MQ> = sel.iter().filter(|q| pat.matches_triple(q)).map(|q| proj(q)).collect();
                 cmp(ctx, "graph(g).triples_matching", name, g_matching(&v, pat), exp, step);
                 cmp(ctx, "graph(g).triples", name, g_all(&v), sel.iter().map(|q| proj(q)).collect(), step);
+                check_enums(ctx, "graph(g)", name, &v, &sel.iter().map(|q| proj(q)).collect::<Vec<_>>(), step);
                 // the store itself agrees
                 cmp(ctx, "store.quads", name, d_all(&d), model.clone(), step);
             }
